@@ -122,3 +122,54 @@ Fixpoint whileB {B} (fuel : nat) (c : B -> res bool) (f : B -> res (bool * B)) (
   | S n => do t <- c b;
            if t then (do r <- f b; let '(go, b1) := r in if go then whileB n c f b1 else Ok b1) else Ok b
   end.
+
+(* ---- std::optional<T> whose state the record keeps as [option T] ---- *)
+(* o.has_value() *)
+Definition opt_has_value {A} (o : option A) : bool := match o with Some _ => true | None => false end.
+(* o.value(): on an empty optional it throws std::bad_optional_access; the monad has no
+   exceptions, so the throw is reported as UB (conservative: a no-UB theorem excludes it) *)
+Definition opt_value {A} (o : option A) : res A :=
+  match o with Some a => Ok a | None => UB "value() of an empty optional (bad_optional_access)" end.
+
+(* ---- iterators stored in a container whose record keeps only the node they point at ---- *)
+(* a std::list iterator stored as the mapped value of the index (key -> list iterator): the record
+   keeps the node identity n for It n; storing end() is defined C++ but has no representation, it
+   is reported as UB (conservative) *)
+Definition iter_node (i : iter) : res nat :=
+  match i with It n => Ok n | End => UB "end() stored as a mapped list iterator: not representable" end.
+(* an index iterator stored in a std::optional<keyed_iterator> kept as [option K] (None = nullopt,
+   Some k = engaged, pointing at the node of key k): an engaged optional holding end() / a singular
+   iterator has no representation, it is reported as UB (conservative) *)
+Definition mit_engage {K} (it : option K) : res (option K) :=
+  match it with Some k => Ok (Some k) | None => UB "end() stored in optional<keyed_iterator>: not representable" end.
+(* ---- rr_cache: vector<size_t> elements as lvalues, unsigned subtraction, the random engine ---- *)
+Section RrPrims.
+  Local Open Scope string_scope.
+  Local Open Scope nat_scope.
+
+  (* a - b on size_t used as a value: wrap-around is reported (as for --x), the result is then an index or a bound *)
+  Definition usub (a b : nat) : res nat :=
+    if a <? b then UB "unsigned subtraction wraps around" else Ok (a - b).
+
+  (* std::swap(v[i], v[j]) on two elements of the same vector: both references must be in range *)
+  Definition vswap {A} (what : string) (l : list A) (i j : nat) : res (list A) :=
+    do a <- vget what l i; do b <- vget what l j; Ok (upd_nth j a (upd_nth i b l)).
+
+  (* std::uniform_int_distribution<size_t> d{a, b}: requires a <= b; the object is its pair of bounds *)
+  Definition uniform_dist (a b : nat) : res (nat * nat) :=
+    if a <=? b then Ok (a, b) else UB "uniform_int_distribution{a, b} with b < a".
+
+  (* d(engine): the engine is the sequence of the draws it will hand out (a finite list stands for
+     the stream that goes on with 0s, as in Rr.v / RrLit.v); a draw consumes the head; the
+     distribution only produces values in [a, b], anything else is not a behaviour of the
+     program and is reported *)
+  Definition rng_draw (d : nat * nat) (g : list nat) : res (nat * list nat) :=
+    let r := hd 0 g in
+    if (fst d <=? r) && (r <=? snd d) then Ok (r, tl g) else UB "draw outside [a, b] of the distribution".
+End RrPrims.
+
+(* the state of a class with a random engine member: the state record of its literal machine
+   plus the engine (the draws still to come) *)
+Record with_rng (S : Type) := { rs_st : S; rs_rng : list nat }.
+Arguments rs_st {S} _.
+Arguments rs_rng {S} _.
